@@ -466,11 +466,62 @@ def surf_worker(part, job):
                       % (kind, name, list(seps), ["%.3g" % x for x in devs], bound), {"kind": "surf", "job": [kind, name, param, smoothing, list(seps), pose]})
 
 
+def node_level_worker(part, arg):
+    """
+    "the isosurface through this point": the isovalue is the density AT A NODE of the sampling grid, so the level set passes exactly
+    through a grid node and the mesher emits coincident vertices there.  Through the function and through the Molecule method, with and
+    without smoothing: indices valid, and after welding coincident vertices a closed oriented surface round all atoms
+    """
+    from chmpy import PromoleculeDensity
+    from chmpy.core.element import Element
+    from chmpy.core.molecule import Molecule
+    from chmpy.surface import promolecule_density_isosurface
+
+    zs, pos = SURF_MOLS[arg]
+    zs, pos = np.array(zs), np.array(pos, dtype=float)
+    sep = 0.5
+    pro = PromoleculeDensity((zs, pos))
+    lo, hi = pro.bb()
+    grids = [np.arange(lo[i], hi[i], sep, dtype=np.float32) for i in range(3)]
+    for ti, off in enumerate(([1.9, 0.3, 0.2], [-0.4, 1.7, 0.6], [0.2, -0.3, 2.1])):
+        target = pos[0] + np.array(off)
+        node = np.array([[g[np.argmin(np.abs(g - t))] for g, t in zip(grids, target)]], dtype=np.float32)
+        iso = float(pro.rho(node)[0])
+        if not 1e-4 < iso < 0.05:
+            part.skip("node density outside the usual isovalue range")
+            continue
+        for route in ("function", "function-unsmoothed", "molecule"):
+            part.ev()
+            part.tr()
+            case = {"kind": "nodelevel", "mol": arg}
+            try:
+                if route == "molecule":
+                    tm = Molecule([Element.from_atomic_number(int(z)) for z in zs], pos.copy()).promolecule_density_isosurface(isovalue=iso, separation=sep)
+                    v, f = np.asarray(tm.vertices), np.asarray(tm.faces)
+                else:
+                    m_ = promolecule_density_isosurface(pro, isovalue=iso, sep=sep, **({"smoothing": None} if route.endswith("unsmoothed") else {}))
+                    v, f = np.asarray(m_.vertices), np.asarray(m_.faces)
+            except Exception as e:
+                part.fail("node-level:raise:%s" % route, "promolecule surface (%s) of %s at the density of a grid node (isovalue %.6g) raised %s: %s" % (route, arg, iso, type(e).__name__, str(e)[:80]), case)
+                continue
+            if f.size == 0 or f.min() < 0 or f.max() >= len(v):
+                part.fail("node-level:indices:%s" % route, "promolecule surface (%s) of %s at the density of a grid node: face indices %s..%s for %d vertices"
+                          % (route, arg, f.min() if f.size else None, f.max() if f.size else None, len(v)), case)
+                continue
+            v2, f2, _ = mesh.merge_vertices(v, f, 1e-6)
+            surface_oracle(part, v2, f2, pos, np.zeros((0, 3)), (pos.min(axis=0) - 8.0, pos.max(axis=0) + 8.0), case, "node-level:%s" % route)
+            part.outcome(("nodelevel", route, ti))
+    part.nstates(1)
+
+
 def wrapper_worker(part, job):
     """user-level wrappers returning Trimesh objects"""
     import trimesh
 
     which, arg = job
+    if which == "node-level":
+        node_level_worker(part, arg)
+        return
     part.ev()
     part.tr()
     case = {"kind": "wrapper", "job": [which, arg]}
@@ -573,6 +624,8 @@ def run(ctx):
         jobs.append(("surf", ("stockholder", name, 0.5, None, (0.5,), True)))
     for name in ("H2O", "CO2", "ring12"):
         jobs.append(("wrap", ("molecule", name)))
+        if name in ("H2O", "CO2", "CH4"):
+            jobs.append(("wrap", ("node-level", name)))
     for f in ("acetic_acid.cif", "iceII.cif"):
         jobs.append(("wrap", ("crystal-hirshfeld", f)))
         jobs.append(("wrap", ("crystal-promolecule", f)))
@@ -616,5 +669,7 @@ def replay(ctx, case):
     elif k == "surf":
         j = case["job"]
         surf_worker(ctx, (j[0], j[1], j[2], j[3], tuple(j[4]), j[5]))
+    elif k == "nodelevel":
+        node_level_worker(ctx, case["mol"])
     elif k == "wrapper":
         wrapper_worker(ctx, tuple(case["job"]))
